@@ -233,11 +233,32 @@ def run(ctx, ck):
             ok = ok and cnt == (1, 1)
         ck.ob('R-EXH.grid-to-table', q, ok, w.loc(), 'one FIELD POINT block per (field, grid point): %s' % (cnt,))
     far = m.func('mininec.Mininec.compute_far_field')
-    mg = [s for s in walk_no_nested(far.node) if isinstance(s, ast.Assign) and isinstance(s.value, ast.Call)
-          and (dotted(s.value.func) or '').endswith('meshgrid') and 'angle_deg' in norm(s.value)]
-    ok = len(mg) == 1 and sorted(norm(a) for a in mg[0].value.args) == [
-        'azimuth_angle.angle_deg()', 'zenith_angle.angle_deg()']
-    ck.ob('R-EXH.grid-to-table', far.qual + '|angle-grid', ok, far.loc(mg[0] if mg else None),
+    # the angle arrays handed to Far_Field_Pattern, as closed expressions of the symbolic walk: the two
+    # components of one meshgrid over the degree lists of both angles
+    from .C10 import far_field_creations
+    import re as _re
+    grids = set()
+    for p_, amap in far_field_creations(ctx):
+        for nm in ('azi', 'zen'):
+            grids.add((nm, norm(amap[nm]) if nm in amap else '?'))
+    ok = len(grids) == 2
+    mg = []
+    if ok:
+        d_ = dict(grids)
+        pat = _re.compile(r"^np\.meshgrid\((.+)\)\[(\d)\]$")
+        ma, mz = pat.match(d_['azi']), pat.match(d_['zen'])
+        ok = bool(ma and mz) and ma.group(1) == mz.group(1) and {ma.group(2), mz.group(2)} == {'0', '1'}
+        if ok:
+            args_ = [x_.strip() for x_ in ma.group(1).split(', ')]
+            lists = [x_ for x_ in args_ if '=' not in x_]
+            ok = sorted(lists) == ['azimuth_angle.angle_deg()', 'zenith_angle.angle_deg()']
+            # which component is which: default indexing 'xy' puts the first list along the columns
+            ij = any(x_.replace(' ', '') in ("indexing='ij'",) for x_ in args_)
+            first_is_zen = lists[0].startswith('zenith') if ok else None
+            if ok:
+                # component i varies with list i; azi must vary with the azimuth list
+                ok = (ma.group(2) == ('1' if first_is_zen else '0')) and (mz.group(2) == ('0' if first_is_zen else '1'))
+    ck.ob('R-EXH.grid-to-table', far.qual + '|angle-grid', ok, far.loc(),
           'printed angles = meshgrid of both Angle.angle_deg() lists')
     for q in ('mininec.Far_Field_Pattern.db_as_mininec', 'mininec.Far_Field_Pattern.abs_gain_as_mininec'):
         w = m.func(q)
